@@ -76,6 +76,12 @@ struct fm_shape_info {
   X(void, fm_angle_to_radians_range, (int type, u64 start, size_t n, i64* out)) \
   X(i64,  fm_xangle,        (int fn, int type, u64 bits)) \
   X(i64,  fm_angle_aprox,   (int cosine, int32_t angle)) \
+  X(int,  fm_angle_constarg_count, (void)) \
+  X(int32_t, fm_angle_constarg_value, (int idx)) \
+  X(i64,  fm_angle_constarg, (int cosine, int idx)) \
+  X(int,  fm_has_int128,    (void)) \
+  X(i64,  fm_mixed128,      (int op, int is_unsigned, int order, i64 a, u64 hi, u64 lo)) \
+  X(size_t, fm_stream,      (i64 a, char* buf, size_t cap)) \
   X(void, fm_angle_aprox_range, (int cosine, int32_t start, size_t n, i64* out)) \
   X(i64,  fm_table,         (int which, unsigned index)) \
   X(int,  fm_shape_count,   (void)) \
